@@ -30,6 +30,7 @@ import (
 
 	"github.com/bfenetworks/bfe/bfe_http"
 	"github.com/bfenetworks/bfe/bfe_module"
+	"github.com/bfenetworks/bfe/bfe_modules/mod_compress"
 	"github.com/bfenetworks/bfe/bfe_modules/mod_cors"
 	"pgregory.net/rapid"
 
@@ -73,12 +74,26 @@ var (
 	c52Once sync.Once
 	c52H    *modHost
 	c52Err  error
+	// c52Z: mod_compress, the module that runs after mod_cors in the HandleReadResponse
+	// chain of a default build (bfe_modules.go order) and also edits the response head.
+	// It has one static rule per product: default_t() -> GZIP. It only acts on requests
+	// that carry Accept-Encoding: gzip.
+	c52Z *modHost
 )
+
+const c52CompressRules = `{"Version":"c52","Config":{` +
+	`"p":[{"Cond":"default_t()","Action":{"Cmd":"GZIP","Quality":6,"FlushSize":512}}],` +
+	`"q":[{"Cond":"default_t()","Action":{"Cmd":"GZIP","Quality":6,"FlushSize":512}}]}}`
 
 func c52Setup() (*modHost, error) {
 	c52Once.Do(func() {
 		c52H, c52Err = newModHost("c52", mod_cors.NewModuleCors(),
 			"[Basic]\nDataPath = mod_cors/cors_rule.data\n\n[Log]\nOpenDebug = false\n", "mod_cors/cors_rule.data", emptyRules)
+		if c52Err != nil {
+			return
+		}
+		c52Z, c52Err = newModHost("c52-compress", mod_compress.NewModuleCompress(),
+			"[basic]\nProductRulePath = mod_compress/compress_rule.data\n\n[log]\nOpenDebug = false\n", "mod_compress/compress_rule.data", c52CompressRules)
 	})
 	return c52H, c52Err
 }
@@ -269,6 +284,24 @@ func c52Check(tb ev.TB, rec *ev.Rec, c *c52Case) {
 		rec.Fail(tb, "verdict", c, "response handler returned %d", ret2)
 		return
 	}
+	// the rest of the response chain of a default build: mod_compress runs after
+	// mod_cors; what the client receives is the header set after both
+	compressed := false
+	if firstVal(c.Req.Headers, "Accept-Encoding") != "" {
+		var ret3 int
+		if p := ev.Try(func() { ret3 = c52Z.filterResponse(bfe_module.HandleReadResponse, req, res) }); p != nil {
+			rec.Fail(tb, "panic/compress-handler", c, "mod_compress panicked: %v", p)
+			return
+		}
+		if ret3 != bfe_module.BfeHandlerGoOn {
+			rec.Fail(tb, "verdict", c, "compress handler returned %d", ret3)
+			return
+		}
+		if res.Header.Get("Content-Encoding") != "" {
+			compressed = true
+			classes = append(classes, "compressed-after-cors")
+		}
+	}
 	after := snapshot(res.Header)
 
 	// classes
@@ -325,7 +358,19 @@ func c52Check(tb ev.TB, rec *ev.Rec, c *c52Case) {
 				return
 			}
 		}
-		if !byBfe && !eqStrings(before["vary"], after["vary"]) {
+		if compressed {
+			// a compressing module may add its own Vary token; nothing may get lost
+			have := map[string]bool{}
+			for _, t := range varyTokens(after["vary"]) {
+				have[t] = true
+			}
+			for _, t := range bv {
+				if !have[t] {
+					rec.Fail(tb, "vary/previous-value-lost", c, "Vary before %q, after %q: token %q lost", before["vary"], after["vary"], t)
+					return
+				}
+			}
+		} else if !byBfe && !eqStrings(before["vary"], after["vary"]) {
 			rec.Fail(tb, "vary-changed-without-cors", c, "no cors headers granted but Vary changed from %q to %q", before["vary"], after["vary"])
 			return
 		}
@@ -401,6 +446,9 @@ func c52Check(tb ev.TB, rec *ev.Rec, c *c52Case) {
 			key := "vary/origin-not-added"
 			if len(bv) == 0 {
 				key = "vary/origin-missing"
+			}
+			if compressed {
+				key = "vary/origin-lost-in-response-chain"
 			}
 			if !rec.Fail(tb, key, c, "response echoes origin %q but Vary is %q (was %q)", origin, after["vary"], before["vary"]) {
 				rec.Excluded("known-finding")
@@ -530,6 +578,10 @@ func c52GenCase(rt *rapid.T) *c52Case {
 	if origin != "" {
 		hs = append(hs, hdr{rapid.SampledFrom([]string{"Origin", "origin", "ORIGIN"}).Draw(rt, "oname"), origin})
 	}
+	if rapid.IntRange(0, 9).Draw(rt, "acceptenc") < 4 {
+		// the client accepts gzip: mod_compress (next in the response chain) encodes the response
+		hs = append(hs, hdr{"Accept-Encoding", rapid.SampledFrom([]string{"gzip", "gzip, deflate, br"}).Draw(rt, "ae")})
+	}
 	method := rapid.SampledFrom([]string{"GET", "GET", "POST", "OPTIONS", "OPTIONS", "HEAD"}).Draw(rt, "method")
 	if method == "OPTIONS" || rapid.IntRange(0, 9).Draw(rt, "acrmany") == 0 {
 		if v := rapid.SampledFrom([]string{"", "GET", "PUT", "DELETE", "FOO", "get"}).Draw(rt, "acrm"); v != "" {
@@ -575,8 +627,12 @@ func TestC52(t *testing.T) {
 	for _, r := range []c52RuleSpec{docRule, listRule, starRule} {
 		for _, v := range c52Varys {
 			for _, o := range []string{"", "https://example.org", "https://example.org.evil.com", "HTTPS://EXAMPLE.ORG", "null"} {
-				for _, m := range []string{"GET", "OPTIONS"} {
+				for _, m := range []string{"GET", "OPTIONS", "GET+gzip"} {
 					c := &c52Case{Rules: []c52RuleSpec{r}, Req: reqSpec{Method: m, Target: "/", Host: "example.org"}, Resp: []hdr{{"Content-Type", "text/plain"}}}
+					if m == "GET+gzip" { // response also passes mod_compress
+						c.Req.Method, m = "GET", "GET"
+						c.Req.Headers = append(c.Req.Headers, hdr{"Accept-Encoding", "gzip"})
+					}
 					if o != "" {
 						c.Req.Headers = append(c.Req.Headers, hdr{"Origin", o})
 					}
